@@ -352,11 +352,11 @@ def run(ctx: Ctx) -> None:
     q = ctx.quick
     jobs = []
     for k in range(4):
-        jobs.append(("mem", ctx.seed * 100 + k, 120 if q else 1500, False, known))
-        jobs.append(("sqlite", ctx.seed * 100 + 10 + k, 40 if q else 500, False, known))
+        jobs.append(("mem", ctx.seed * 100 + k, 120 if q else 4000, False, known))
+        jobs.append(("sqlite", ctx.seed * 100 + 10 + k, 40 if q else 1300, False, known))
     for k in range(3):
-        jobs.append(("mem", ctx.seed * 100 + 20 + k, 50 if q else 800, True, known))
-        jobs.append(("sqlite", ctx.seed * 100 + 30 + k, 25 if q else 400, True, known))
+        jobs.append(("mem", ctx.seed * 100 + 20 + k, 50 if q else 2000, True, known))
+        jobs.append(("sqlite", ctx.seed * 100 + 30 + k, 25 if q else 1000, True, known))
     merge_parts(ctx, pmap(shard, jobs))
     merge_parts(ctx, pmap(process_shard, [(ctx.seed, known)] if q else [(ctx.seed + k, known) for k in range(4)]))
     ctx.assumptions.append("a body execution = set PENDING, load a new invocation object from the state backend, DistributedInvocation.run(runner ctx) - what every runner does; 'die' leaves the status RUNNING and the next execution goes through RUNNING_RECOVERY/REROUTED")
